@@ -1097,7 +1097,18 @@ impl<'r> Gen<'r> {
             } else {
                 None
             };
-            formals.push((self.fresh("p"), d));
+            // a formal may be spelled like a reserved word of the language (not of the directive names)
+            let fname = if self.r.chance(1, 8) {
+                let w = *self.r.pick(&["type", "bit", "logic", "string", "int", "reg", "wire", "begin", "end", "module", "input", "signed", "var"]);
+                if formals.iter().any(|(f, _): &(String, Option<String>)| f == w) {
+                    self.fresh("p")
+                } else {
+                    w.to_string()
+                }
+            } else {
+                self.fresh("p")
+            };
+            formals.push((fname, d));
         }
         let mut generating = false;
         let body = if self.r.chance(1, 10) {
